@@ -127,6 +127,9 @@ def ttm_scalar(E, s):
             a = s['ival']
         elif s['skind'] == 'pyfloat':
             a = float(s['fval'])          # a concrete python float (a double that float32 cannot represent)
+        elif s['skind'] == 'npscalar':
+            import numpy as _rnp
+            a = getattr(_rnp, s['nptype'])(complex(*s['cval']) if isinstance(s['cval'], list) else s['cval'])       # a concrete numpy scalar
         else:
             a = E.scalar('a', s['skind'], s['dtype'])
         if s.get('nonzero'):
@@ -150,7 +153,7 @@ def ttm_scalar(E, s):
     E.true('is_ttm', isinstance(Y, E.tt.TT) and Y.is_ttm)
     E.eq('value', dense(E, Y.cores), ref.reshape(list(Ad.shape)))
     E.true('shape', list(Y.M) == list(s['M']) and list(Y.N) == list(s['N']))
-    if s.get('skind') == 'complex' and not s['dtype'].startswith('complex'):
+    if (s.get('skind') == 'complex' or (s.get('skind') == 'npscalar' and s['nptype'].startswith('complex'))) and not s['dtype'].startswith('complex'):
         # a complex scalar on a real operand: the value clause forces a complex result for a != 0; the property fixes no dtype for a == 0
         E.true('dtype_consistent', len({E.dtname(c) for c in Y.cores}) == 1)
     else:
